@@ -57,6 +57,10 @@ void harness(void)
 {
 	struct rrulsp_s rr = {.freq = (echs_freq_t)FREQ, .count = -1, .inter = INTER, .until = echs_max_instant()};
 	sym_load();
+#if defined FIXYM
+	/* quick-tier slice: year and month of DTSTART are constants (day and time of day symbolic) */
+	in.y = FIXYM / 100, in.m = FIXYM % 100;
+#endif
 	ASSUME(in.y >= 1902 && in.y <= 2090 && in.m >= 1 && in.m <= 12 && in.d >= 1 && in.d <= 28);
 	ASSUME(in.H >= 0 && in.H < 24 && in.M >= 0 && in.M < 60 && in.S >= 0 && in.S < 60);
 	echs_instant_t D = {.u = 0U};
